@@ -1,0 +1,102 @@
+//! Read-only accessors and thin wrappers used by the external verification
+//! harness. Only compiled with the `verif-hooks` cargo feature.
+use super::*;
+use crate::meta::{Table, TableEntry};
+
+/// Index decomposition of a host cluster offset, as computed by the allocator
+#[derive(Debug, Clone, PartialEq, Eq)]
+pub struct VerifHostSplit {
+    pub rt_index: usize,
+    pub rb_index: usize,
+    pub rb_slice_index: usize,
+    pub rb_slice_key: usize,
+    pub rb_slice_off_in_table: usize,
+    pub rb_slice_host_start: u64,
+    pub rb_slice_host_end: u64,
+    pub rb_host_start: u64,
+    pub rb_host_end: u64,
+}
+
+impl<T: Qcow2IoOps> Qcow2Dev<T> {
+    /// In-RAM refcount of the host cluster at byte offset `host_off`, if its
+    /// refblock slice is cached and not locked; does not load or touch LRU order.
+    pub fn verif_refcount(&self, host_off: u64) -> Option<u64> {
+        let cls = HostCluster(host_off);
+        let entry = self.refblock_cache.verif_peek(cls.rb_slice_key(&self.info))?;
+        let rb = entry.value().try_read().ok()?;
+        Some(rb.get(cls.rb_slice_index(&self.info)).into_plain())
+    }
+
+    /// Host cluster numbers currently marked "new" (allocated, not zeroed yet)
+    pub fn verif_new_clusters(&self) -> Option<Vec<u64>> {
+        let map = self.new_cluster.try_read().ok()?;
+        let mut v: Vec<u64> = map.keys().copied().collect();
+        v.sort_unstable();
+        Some(v)
+    }
+
+    /// (dirty l2 slices, dirty refblock slices, dirty l1 blocks, dirty reftable blocks)
+    pub fn verif_dirty_counts(&self) -> Option<(usize, usize, usize, usize)> {
+        let l1 = self.l1table.try_read().ok()?;
+        let rt = self.reftable.try_read().ok()?;
+        Some((
+            self.l2cache.verif_counts().1,
+            self.refblock_cache.verif_counts().1,
+            l1.verif_dirty_blocks(),
+            rt.verif_dirty_blocks(),
+        ))
+    }
+
+    /// (cached l2 slices, cached refblock slices)
+    pub fn verif_cache_counts(&self) -> (usize, usize) {
+        (
+            self.l2cache.verif_counts().0,
+            self.refblock_cache.verif_counts().0,
+        )
+    }
+
+    /// In-RAM top tables: (l1 offset, l1 entries as raw values, reftable offset, reftable entries)
+    #[allow(clippy::type_complexity)]
+    pub fn verif_top_tables(&self) -> Option<(Option<u64>, Vec<u64>, Option<u64>, Vec<u64>)> {
+        let l1 = self.l1table.try_read().ok()?;
+        let rt = self.reftable.try_read().ok()?;
+        Some((
+            l1.get_offset(),
+            (0..l1.entries()).map(|i| l1.get(i).into_plain()).collect(),
+            rt.get_offset(),
+            (0..rt.entries()).map(|i| rt.get(i).into_plain()).collect(),
+        ))
+    }
+
+    /// current allocation hint (byte offset)
+    pub fn verif_free_cluster_hint(&self) -> u64 {
+        self.free_cluster_offset.load(Ordering::Relaxed)
+    }
+
+    /// wrapper around the crate-private allocator entry point
+    pub async fn verif_alloc(&self, count: usize) -> Qcow2Result<Option<(u64, usize)>> {
+        self.allocate_clusters(count).await
+    }
+
+    /// wrapper around the crate-private free entry point
+    pub async fn verif_free(&self, host_off: u64, count: usize) -> Qcow2Result<()> {
+        self.free_clusters(host_off, count).await
+    }
+
+    /// allocator index arithmetic for `host_off`
+    pub fn verif_host_split(&self, host_off: u64) -> VerifHostSplit {
+        let info = &self.info;
+        let c = HostCluster(host_off);
+        VerifHostSplit {
+            rt_index: c.rt_index(info),
+            rb_index: c.rb_index(info),
+            rb_slice_index: c.rb_slice_index(info),
+            rb_slice_key: c.rb_slice_key(info),
+            rb_slice_off_in_table: c.rb_slice_off_in_table(info),
+            rb_slice_host_start: c.rb_slice_host_start(info),
+            rb_slice_host_end: c.rb_slice_host_end(info),
+            rb_host_start: c.rb_host_start(info),
+            rb_host_end: c.rb_host_end(info),
+        }
+    }
+}
